@@ -54,13 +54,15 @@ piece = st.one_of(st.binary(min_size=1, max_size=12), st.binary(min_size=1, max_
                   st.sampled_from([b"0\r\n\r\n", b"\r\n\r\n", b"HTTP/1.1 200 OK\r\nContent-Length: 0\r\n\r\n"]))
 req_st = st.fixed_dictionaries({
     "shape": st.sampled_from(SHAPES),
-    "method": st.sampled_from(["GET", "GET", "POST", "PUT"]),
+    "method": st.sampled_from(["GET", "GET", "POST", "PUT", "HEAD"]),
     "reqbody": st.binary(max_size=30),
     "pieces": st.lists(piece, min_size=1, max_size=4),
     "pauses": st.lists(st.integers(0, 2), min_size=1, max_size=4),
     "status": st.sampled_from(["200 OK", "200 OK", "201 Created", "404 Not Found", "204 No Content", "304 Not Modified"]),
 }).map(lambda r: dict(r, shape=(r["shape"] if r["shape"] in ("empty", "empty0") else "empty"))
-       if r["status"][:3] in ("204", "304") else r)     # 204 / 304 carry no body (with or without Content-Length: 0)
+       if r["status"][:3] in ("204", "304") else r      # 204 / 304 carry no body (with or without Content-Length: 0)
+       ).map(lambda r: dict(r, shape=("fixed" if r["shape"] in ("fixed", "fixedgen", "stream", "chunked") else "empty0"))
+             if r["method"] == "HEAD" else r)    # the reply to a HEAD: head only, Content-Length of the would-be body or 0
 sched_list = st.one_of(st.just([]), st.lists(st.sampled_from([0, 0, 1, 2, 3, 5, 8, 13, 64, 1000]), min_size=1, max_size=6))
 sched_st = st.fixed_dictionaries({"a_send": sched_list, "a_recv": sched_list, "b_send": sched_list, "b_recv": sched_list})
 case_st = st.fixed_dictionaries({
@@ -74,9 +76,9 @@ case_st = st.fixed_dictionaries({
 def expected(i, r):
     """(status code, body) the application produces for request i."""
     head = b"id=%d;" % i
-    if r["shape"] in ("empty", "empty0"):
+    if r["shape"] in ("empty", "empty0") or r["method"] == "HEAD":
         return int(r["status"][:3]), b""
-    body = head + (r["reqbody"] if r["method"] != "GET" else b"") + b";" + b"".join(r["pieces"])
+    body = head + (r["reqbody"] if r["method"] not in ("GET", "HEAD") else b"") + b";" + b"".join(r["pieces"])
     return int(r["status"][:3]), body
 
 
@@ -92,6 +94,9 @@ def make_app(reqs, calls):
         hs = [("X-Echo-Id", str(i)), ("Content-Type", "application/octet-stream")]
         parts = [b"id=%d;" % i, inp + b";"] + list(r["pieces"])
         total = sum(len(p) for p in parts)
+        if environ["REQUEST_METHOD"] == "HEAD":
+            start_response(r["status"], hs + [("Content-Length", str(total if shape == "fixed" else 0))])
+            return []
         if shape == "empty":
             start_response(r["status"], hs)
             return []
@@ -120,7 +125,7 @@ def _queue(patron, i, r):
     from ioflo.aid.odicting import odict
     patron.request(method=r["method"], path=u"/r", qargs=odict([("id", i)]),
                    headers=odict([("X-Req-Id", str(i)), ("Accept", "*/*")]),
-                   body=r["reqbody"] if r["method"] != "GET" else None, rid=i)
+                   body=r["reqbody"] if r["method"] not in ("GET", "HEAD") else None, rid=i)
 
 
 class Run(object):
@@ -198,7 +203,7 @@ def judge(run, calls, state, rounds):
         fails.append(("app-call-order", "application saw request ids %r for %d requests" % (seen_ids, n)))
     for c in calls:
         i, hid, method, inp = c
-        want = reqs[i]["reqbody"] if reqs[i]["method"] != "GET" else b""
+        want = reqs[i]["reqbody"] if reqs[i]["method"] not in ("GET", "HEAD") else b""
         if hid != str(i) or method != reqs[i]["method"] or inp != want:
             fails.append(("request-mismatch", "request %d arrived as id header %r method %r body %r (sent %r %r)"
                           % (i, hid, method, inp[:60], reqs[i]["method"], want[:60])))
@@ -320,8 +325,11 @@ def classify(case):
     cls.append("collect:" + case.get("collect", "each"))
     if "q" in case["ops"]:
         cls.append("requests-queued-during-service")
-    if any(r["method"] != "GET" and r["reqbody"] for r in case["reqs"]):
+    if any(r["method"] not in ("GET", "HEAD") and r["reqbody"] for r in case["reqs"]):
         cls.append("request-with-body")
+    ms = [r["method"] == "HEAD" for r in case["reqs"]]
+    if any(a != b for a, b in zip(ms, ms[1:])):
+        cls.append("method-switches-to-or-from-HEAD")
     return nt, cls
 
 
